@@ -1663,6 +1663,13 @@ pub fn prove(label: &str, b: B) -> Proof {
                 e.undecided_labels.push(format!("{} (concrete: not evaluable)", label));
                 return Proof::Undecided;
             }
+            // a structurally false obligation (data-movement check that failed on term identities) once eight counterexample
+            // candidates exist already: counted as failed, no further model is asked for (a broken library fails thousands of
+            // these and each model costs up to three solver calls)
+            Some(false) if e.candidates.len() >= 8 => {
+                e.stats.failed += 1;
+                return Proof::Failed;
+            }
             _ => {}
         }
         let pc: Vec<B> = e.pc.clone();
